@@ -62,6 +62,24 @@ static inline void rec(int, int, long long a = 0, long long b = 0, long long c =
 static inline void inv(int m, long long arg = 0, long long b = 0, long long c = 0, long long d = 0) {rec(0, m, arg, b, c, d);}
 static inline void res(int m, long long a = 0, long long b = 0, long long c = 0, long long d = 0, long long e = 0) {rec(3, m, a, b, c, d, e);}
 
+// Calls that leave the object's state as it was (reads, a consume that found nothing, a heartbeat that did not expire) are recorded
+// in full at first and then thinned out: once a thread has kept many of them, only one in 2, 4, 8.. is kept; the events of a
+// dropped call (its inv, lock, unlock, res) are removed from the thread's buffer.  A dropped call is a call nobody checked; the
+// recorded history stays a valid history of the object.  Calls that change the state are always kept.
+struct Thinner
+{
+  size_t mark = 0; long long kept = 0, seen = 0, quota;
+  explicit Thinner(long long q) : quota(std::max<long long>(64, q)) {}
+  void begin() {if (tl_buf) {mark = tl_buf->size();}}
+  void end(bool changedState)
+  {
+    if (!tl_buf) {return;}
+    ++seen;
+    const long long stride = 1LL << std::min<long long>(20, kept / quota);
+    if (changedState || seen % stride == 0) {++kept;} else {tl_buf->resize(mark);}
+  }
+};
+
 // ----------------------------------------------------------------------------- projections
 static const std::string NAME = "thing";
 static int verdictCode(const std::string & msg, const std::string & name)
@@ -163,8 +181,8 @@ static void runSV(Work & w)
     });
   for (int i = 0; i < w.readers; ++i) {
     w.spawn([&](vh::Rng &) {
-        long long n = 0;
-        while (!w.stop) {inv(LOAD); Pair p = (++n % 2) ? sv.load() : static_cast<Pair>(sv); res(LOAD, p.a, p.b != ~p.a);}
+        long long n = 0; Thinner th(w.ops / 2);
+        while (!w.stop) {th.begin(); inv(LOAD); Pair p = (++n % 2) ? sv.load() : static_cast<Pair>(sv); res(LOAD, p.a, p.b != ~p.a); th.end(false);}
       });
   }
   w.join();
@@ -182,8 +200,8 @@ static void runSVW(Work & w)
     });
   for (int i = 0; i < w.readers; ++i) {
     w.spawn([&](vh::Rng &) {
-        long long n = 0;
-        while (!w.stop) {inv(LOAD); long long v = (++n % 2) ? sv.load() : static_cast<long long>(sv); res(LOAD, v, 0);}
+        long long n = 0; Thinner th(w.ops / 2);
+        while (!w.stop) {th.begin(); inv(LOAD); long long v = (++n % 2) ? sv.load() : static_cast<long long>(sv); res(LOAD, v, 0); th.end(false);}
       });
   }
   w.join();
@@ -205,7 +223,8 @@ static void runSOV(Work & w)
   }
   for (int c = 0; c < consumers; ++c) {
     w.spawn([&](vh::Rng &) {
-        while (!w.stop) {inv(CONSUME); auto v = sov.consume(); res(CONSUME, v ? *v : 0);}
+        Thinner th(w.ops / 2);
+        while (!w.stop) {th.begin(); inv(CONSUME); auto v = sov.consume(); res(CONSUME, v ? *v : 0); th.end(v.has_value());}
       });
   }
   w.join();
@@ -239,7 +258,9 @@ static void runStats(Work & w, bool var)
     });
   for (int i = 0; i < w.readers; ++i) {
     w.spawn([&, i](vh::Rng & r) {
+        Thinner th(w.ops / 2);
         while (!w.stop) {
+          th.begin();
           int what = (int)r.range(0, var ? 2 : 1);
           if (what == 0) {
             inv(GETAVG); double a = st->getAverage();
@@ -255,6 +276,7 @@ static void runStats(Work & w, bool var)
             Bits b = bitsOf(v);
             res(GETVAR, ex ? x : 0, b.hi, ex, b.mid, b.lo);
           }
+          th.end(false);
           (void)i;
         }
       });
@@ -285,11 +307,14 @@ static void runCheckup(Work & w, const std::string & ck, bool hasTimeout)
     });
   for (int i = 0; i < w.readers; ++i) {
     w.spawn([&](vh::Rng &) {
+        Thinner th(w.ops / 2);
         while (!w.stop) {
+          th.begin();
           inv(GETREPORT);
           DiagnosticReport rep = c->getReport();       // the copy a caller makes of what the getter hands out
           RepObs o = projReport(rep, NAME, 0);
           res(GETREPORT, o.status, o.verdict, o.has, o.value);
+          th.end(false);
         }
       });
   }
@@ -326,9 +351,10 @@ static void runRM(Work & w)
     });
   for (int i = 0; i < std::max(1, w.readers); ++i) {
     w.spawn([&](vh::Rng & r) {
+        Thinner th(w.ops / 2);
         while (!w.stop) {
           long long at = w.lastStamp + r.pick(std::vector<long long>{0, 100, 499, 500, 501, 900, 3000});
-          inv(HB, at); bool to = rm->timeout(durationFromMilliSecond(at)); res(HB, to);
+          th.begin(); inv(HB, at); bool to = rm->timeout(durationFromMilliSecond(at)); res(HB, to); th.end(to);
         }
       });
   }
@@ -348,18 +374,22 @@ static void runRC(Work & w, const std::string & ck)
       stampLoop(w, r, [&](Duration d) {return (long long)(int)rc->evaluate(d);});
     });
   w.spawn([&](vh::Rng & r) {
+      Thinner th(w.ops / 2);
       while (!w.stop) {
         long long at = w.lastStamp + r.pick(std::vector<long long>{0, 100, 499, 500, 501, 900, 3000});
-        inv(HB, at); bool ok = rc->heartBeatCallback(durationFromMilliSecond(at)); res(HB, !ok);
+        th.begin(); inv(HB, at); bool ok = rc->heartBeatCallback(durationFromMilliSecond(at)); res(HB, !ok); th.end(!ok);
       }
     });
   for (int i = 0; i < w.readers; ++i) {
     w.spawn([&](vh::Rng &) {
+        Thinner th(w.ops / 2);
         while (!w.stop) {
+          th.begin();
           inv(GETREPORT);
           DiagnosticReport rep = rc->getReport();
           RepObs o = projReport(rep, NAME + "_rate", 20.0 * 1000);
           res(GETREPORT, o.status, o.verdict, o.has, o.value);
+          th.end(false);
         }
       });
   }
